@@ -124,7 +124,7 @@ def per_chunk_policy(content, encoding, mode, sym_payloads):
     n = len(sym_payloads)
     k, m = divmod(len(text), n)
     chunks = [text[i * k + min(i, m):(i + 1) * k + min(i + 1, m)] for i in range(n)]
-    for ch, (got, truncated, version, seg_mode) in zip(chunks, sym_payloads):
+    for ch, (got, first_segment, truncated, version, seg_mode) in zip(chunks, sym_payloads):
         if mode == 'hanzi':
             encs = ['gb2312']
         else:
@@ -143,6 +143,7 @@ def per_chunk_policy(content, encoding, mode, sym_payloads):
             # the same overflow, only that the reader is not left with a dangling segment
             truncated = True
         if truncated:
+            got = first_segment      # what follows the first segment of such a symbol is read from cut-off bits
             # an overflowing symbol: the readable part must at least start like its chunk (two bytes of slack for
             # the cut inside a count unit)
             if not (want.startswith(got) or want.startswith(got[:max(0, len(got) - 2)])):
@@ -175,7 +176,7 @@ def check_sequence(case, seq, rec):
             sym_payloads.append(None)
             continue
         # an unparsable (overflowing) symbol: only its first segment is meaningful, what follows is read from cut-off bits
-        sym_payloads.append((s.payload if s.parse_error is None else (s.segments[0]['payload'] if s.segments else b''),
+        sym_payloads.append((s.payload, s.segments[0]['payload'] if s.segments else b'',
                              s.parse_error is not None, s.version, s.segments[0]['mode'] if s.segments else None))
         rec.count('symbols_decoded_in_sequences')
         for prop, kind, detail in devs:
